@@ -52,6 +52,8 @@ def to_harness(c):
             L.append("repro gnp %d %d %d %d %d" % tuple(cl[1:]))
         elif k == "repro_cent":
             L.append("repro cent %d" % cl[1])
+        elif k == "repro_all":
+            L.append("repro all %d" % cl[1])
     L.append("end")
     return "\n".join(L)
 
@@ -67,7 +69,7 @@ def modelled(c):
     if any(isinstance(e[2], float) for e in c["edges"]):
         return False
     for cl in c["calls"]:
-        if cl[0] in ("repro_gnp", "repro_cent"):
+        if cl[0] in ("repro_gnp", "repro_cent", "repro_all"):
             return False
         if cl[0] in ("louv", "repro_louv") and cl[5] < 0:
             return False
@@ -384,6 +386,15 @@ class CommProp(props.BaseProp):
                     msgs.append("closeness / betweenness of the same graph differ between calls / rebuilt copies / "
                                 "rayon pool sizes 1,4,16 (all returned %d, closeness equal %d, betweenness equal %d)"
                                 % tuple(r[0][1][0][:3]))
+            elif cl[0] == "repro_all":
+                r = [o for o in seg if o[0] == 85]
+                if not r:
+                    msgs.append("all algorithms: no repeat observation")
+                elif r[0][1][0][2] != 0:
+                    msgs.append("non-randomised algorithms return different answers for the same graph between calls / "
+                                "rebuilt copies / rayon pool sizes 1,4,16 (%d runs): %s"
+                                % (r[0][1][0][0], ", ".join(ALL_TAGS[t] if 0 <= t < len(ALL_TAGS) else "number of answers"
+                                                            for t in r[0][1][1])))
             elif cl[0] == "repro_gnp":
                 r = [o for o in seg if o[0] == 81]
                 if not r:
@@ -772,6 +783,13 @@ def fam_edges(kind, n):
     return []
 
 
+ALL_TAGS = ["square_clustering", "bfs_equal_size_partitions(1)", "bfs_equal_size_partitions(2)",
+            "bfs_equal_size_partitions(3)", "bfs_equal_size_partitions(4)", "clustering(unweighted)", "clustering(weighted)",
+            "average_clustering", "transitivity", "triangles", "generalized_degree", "connected_components",
+            "weakly_connected_components", "strongly_connected_components", "eigenvector_centrality", "degree_centrality",
+            "dijkstra::all_pairs", "modularity(components)", "breadth_first_search", "closeness_centrality",
+            "betweenness_centrality", "node_connected_component"]
+
 FAMS = ["path", "cycle", "complete", "star", "circ2", "grid", "cliques", "rand", "hubtwin", "hubtwin_dir", "w5", "mring", "bigdir"]
 WTS = [0.1, 0.2, 0.3]
 
@@ -796,6 +814,7 @@ class C17Prop(CommProp):
 
     def gen(self, seed, n):
         r = gv.SplitMix(seed * 1000003 + 17)
+        r2 = gv.SplitMix(seed * 7919 + 1717)
         cases = []
         for i in range(n):
             if i % 4 == 3:
@@ -894,10 +913,35 @@ class C17Prop(CommProp):
                 calls = [("repro_louv", 1, 1, 1, 0, sd) for sd in (1, 2, 3)]
             cases.append({"id": "r%d" % i, "spec": (directed, multi, 1, 0, 0, 0), "nodes": nodes, "edges": edges,
                           "calls": calls})
+            # "all non-randomised algorithms likewise": every algorithm of the library on the same graph, repeated
+            if i % 3 == 0:
+                cases.append({"id": "a%d" % i, "spec": (directed, multi, 1, 0, 0, 0), "nodes": nodes, "edges": edges,
+                              "calls": [("repro_all", 0 if wmode == "unw" else 1)]})
+            if i % 3 == 1:
+                # a directed graph with one-way edges and hubs (asymmetric pair functions, a breadth-first level
+                # larger than the room left in a partition)
+                na = 6 + r2.below(6)
+                ea = [(a, b, 1 + r2.below(3), None) for a in range(na) for b in range(na)
+                      if a != b and r2.below(10) < 3]
+                hub = r2.below(na)
+                ea += [(hub, b, 1, None) for b in range(na) if b != hub and not any(e[0] == hub and e[1] == b for e in ea)]
+                da = r2.below(4) != 0
+                if not da:
+                    seen_a, eb = set(), []
+                    for e in ea:
+                        kk = (min(e[0], e[1]), max(e[0], e[1]))
+                        if kk not in seen_a:
+                            seen_a.add(kk)
+                            eb.append(e)
+                    ea = eb
+                cases.append({"id": "b%d" % i, "spec": (1 if da else 0, 0, 1, 0, 0, 0),
+                              "nodes": [(x, None) for x in r2.shuffle(list(range(na)))], "edges": r2.shuffle(ea),
+                              "calls": [("repro_all", r2.below(2))]})
         return cases
 
     def nontrivial(self, c, o):
-        return any((ob[0] == 1300 and any(len(r) >= 2 for r in ob[1])) or (ob[0] == 1083 and ob[1]) for ob in o)
+        return any((ob[0] == 1300 and any(len(r) >= 2 for r in ob[1])) or (ob[0] == 1083 and ob[1])
+                   or (ob[0] == 85 and ob[1][0][1] >= 20) for ob in o)
 
     def stats_key(self, c, o):
         ks = []
